@@ -87,7 +87,10 @@ def atlas_docs():
                          "theme": {"type": "string", "default": "light"}, "verbose": {"type": "boolean", "default": False}, "ratio": {"type": "number", "default": 1.5},
                          "color": {"allOf": [{"$ref": REF + "Color"}], "default": "red"}, "since": {"type": "string", "format": "date", "default": "2020-01-02"},
                          "zero": {"type": "integer", "default": 0}, "blank": {"type": "string", "default": ""}, "note": any_of({"type": "string"}, NULL),
-                         "rate": {"type": "number", "default": 2}, "key": {"type": "string"}}, required=["status", "id", "rate", "key"]),
+                         "rate": {"type": "number", "default": 2}, "key": {"type": "string"},
+                         # optional unions WITH a default whose members all need construction (no plain member to fall through to)
+                         "expires": {"oneOf": [{"type": "string", "format": "date"}, {"type": "string", "enum": ["never", "logout"]}], "default": "never"},
+                         "renewed": {"oneOf": [{"type": "string", "format": "date"}, {"type": "string", "enum": ["never", "logout"]}]}}, required=["status", "id", "rate", "key"]),
         "MapOfModels": obj({"name": {"type": "string"}}, addl={"$ref": REF + "Inner"}),
         "MapOfLists": obj({}, addl=arr({"type": "string", "format": "date"})),
         "MapOfEnums": obj({}, addl={"$ref": REF + "Color"}),
@@ -128,7 +131,10 @@ def atlas_docs():
          "RegisteredPet": {"allOf": [{"$ref": REF + "PetA"}, {"type": "object", "required": ["nickname", "registry"], "properties": {"registry": {"type": "string"}}}]},
          "RegisteredPetB": {"allOf": [{"$ref": REF + "PetB"}, {"type": "object", "required": ["born"]}]},
          "PetB": obj({"id": {"type": "integer"}, "nickname": {"type": "string"}, "born": {"type": "string", "format": "date"}}, required=["id"]),
-         "SiblingOfRegistered": {"allOf": [{"$ref": REF + "PetA"}, obj({"other": {"type": "integer"}})]}}
+         "SiblingOfRegistered": {"allOf": [{"$ref": REF + "PetA"}, obj({"other": {"type": "integer"}})]},
+         # a child that REDEFINES an inherited inline-enum property with a superset enum carrying a default
+         "Animal": obj({"mood": {"type": "string", "enum": ["calm", "angry"]}, "legs": {"type": "integer"}}),
+         "Cat": {"allOf": [{"$ref": REF + "Animal"}, {"type": "object", "properties": {"mood": {"type": "string", "enum": ["calm", "angry", "sleepy"], "default": "calm"}, "indoor": {"type": "boolean"}}}]}}
     docs.append(("allof", doc_with(C)))
     return docs
 
@@ -203,7 +209,9 @@ def enum_edge_doc():
     enums (two inline enums deriving one class name: equal, subset, superset, disjoint) - every listed value must stay decodable"""
     S = {"Reaction": {"type": "string", "enum": ["+1", "-1", "laugh", "hooray"]},
          "Marks": {"type": "string", "enum": ["@x", "#1", "1+", "$", "-", "a-b", "a_b2", "...", "?!"]},
-         "UsesEdge": obj({"reaction": {"$ref": REF + "Reaction"}, "mark": {"$ref": REF + "Marks"}, "inline": {"type": "string", "enum": ["+", "-", "+-", "10%"]}}, required=["reaction"]),
+         "Greeting": {"type": "string", "enum": ["plain", 'say "hi"', "it's", "tab\there"]},
+         "UsesEdge": obj({"reaction": {"$ref": REF + "Reaction"}, "mark": {"$ref": REF + "Marks"}, "inline": {"type": "string", "enum": ["+", "-", "+-", "10%"]},
+                          "greeting": {"$ref": REF + "Greeting"}, "alternatives": arr({"$ref": REF + "Greeting"})}, required=["reaction"]),
          # twins: <Holder>.<prop> and <HolderProp-like>.<prop> derive the same class name
          "Order": obj({"id": {"type": "integer"}, "itemStatus": {"type": "string", "enum": ["new", "packed", "shipped", "returned"]}}, required=["id"]),
          "OrderItem": obj({"sku": {"type": "string"}, "status": {"type": "string", "enum": ["new", "shipped"]}}),
